@@ -5,7 +5,9 @@ behaviour-preserving macro expansion, so that a refactored spelling yields the s
     helper's return expression with the arguments substituted;
   * a call through a local alias of a bound method (`get = self.workflow.get_task_list` ... `get(ID=i)`) is replaced by the call
     of the method itself;
-  * `for name in ("a", "b"): ... getattr(o, name) ... setattr(o, name, v)` is unrolled into the statements for `o.a` and `o.b`.
+  * `list(map(F, X))` / `list(filter(lambda e: C, X))` are written as the comprehension they abbreviate;
+  * `for name in ("a", "b"): ... getattr(o, name) ... setattr(o, name, v)` is unrolled into the statements for `o.a` and `o.b`
+    (also when the literal table is named first, and when its rows are tuples unpacked by the loop target).
 
 Line numbers of the original nodes are kept, so reports still point into the source."""
 import ast
@@ -63,7 +65,7 @@ def normalise_function(node, methods=None):
             stores[n.id] = stores.get(n.id, 0) + 1
         elif isinstance(n, ast.arg):
             stores[n.arg] = stores.get(n.arg, 0) + 2
-    helpers, aliases = {}, {}
+    helpers, aliases, tables = {}, {}, {}
     for n in ast.walk(fn):
         if isinstance(n, ast.FunctionDef) and n is not fn:
             r = _single_return(n)
@@ -74,6 +76,8 @@ def normalise_function(node, methods=None):
                 helpers[n.targets[0].id] = (n.value.args, n.value.body)
             elif isinstance(n.value, ast.Attribute):
                 aliases[n.targets[0].id] = n.value
+            elif isinstance(n.value, (ast.Tuple, ast.List)):
+                tables[n.targets[0].id] = n.value   # a literal table named first
 
     class Expand(ast.NodeTransformer):
         depth = 0
@@ -81,6 +85,25 @@ def normalise_function(node, methods=None):
         def visit_Call(self, c):
             c = self.generic_visit(c)
             f = c.func
+            # list(map(F, X)) == [F(e) for e in X];  list(filter(lambda e: C, X)) == [e for e in X if C]
+            if isinstance(f, ast.Name) and f.id == "list" and len(c.args) == 1 and not c.keywords and isinstance(c.args[0], ast.Call) \
+                    and isinstance(c.args[0].func, ast.Name) and c.args[0].func.id in ("map", "filter") and len(c.args[0].args) == 2 and not c.args[0].keywords:
+                kind, (fn_, xs) = c.args[0].func.id, c.args[0].args
+                var = elt = cond = None
+                if isinstance(fn_, ast.Lambda) and len(fn_.args.args) == 1 and not fn_.args.vararg and not fn_.args.kwarg and not fn_.args.defaults:
+                    var = fn_.args.args[0].arg
+                    elt, cond = (fn_.body, None) if kind == "map" else (ast.Name(id=var, ctx=ast.Load()), fn_.body)
+                elif isinstance(fn_, (ast.Name, ast.Attribute)):
+                    var = "_e%d" % getattr(c, "lineno", 0)
+                    app = ast.Call(func=fn_, args=[ast.Name(id=var, ctx=ast.Load())], keywords=[])
+                    elt, cond = (app, None) if kind == "map" else (ast.Name(id=var, ctx=ast.Load()), app)
+                if var is not None:
+                    comp = ast.ListComp(elt=elt, generators=[ast.comprehension(target=ast.Name(id=var, ctx=ast.Store()), iter=xs, ifs=[cond] if cond is not None else [], is_async=0)])
+                    ast.copy_location(comp, c)
+                    for x in ast.walk(comp):
+                        if not hasattr(x, "lineno"):
+                            ast.copy_location(x, c)
+                    return comp
             if isinstance(f, ast.Name) and f.id in helpers and self.depth < 6 and not any(isinstance(a, ast.Starred) for a in c.args) \
                     and all(k.arg for k in c.keywords):
                 args, ret = helpers[f.id]
@@ -105,7 +128,7 @@ def normalise_function(node, methods=None):
                     finally:
                         self.depth -= 1
             if isinstance(f, ast.Name) and f.id in aliases:
-                c.func = ast.copy_location(copy.deepcopy(aliases[f.id]), f)
+                c.func = f = ast.copy_location(copy.deepcopy(aliases[f.id]), f)
             if methods and isinstance(f, ast.Attribute) and isinstance(f.value, ast.Name) and f.value.id == "self" and f.attr in methods and self.depth < 6 \
                     and not any(isinstance(a, ast.Starred) for a in c.args) and all(k.arg for k in c.keywords):
                 m = methods[f.attr]
@@ -136,15 +159,33 @@ def normalise_function(node, methods=None):
 
         def visit_For(self, lp):
             it = lp.iter
-            if isinstance(lp.target, ast.Name) and isinstance(it, (ast.Tuple, ast.List)) and it.elts and not lp.orelse \
-                    and all(isinstance(x, ast.Constant) and isinstance(x.value, str) and x.value.isidentifier() for x in it.elts) \
-                    and not any(isinstance(n, (ast.Break, ast.Continue)) for b in lp.body for n in ast.walk(b)):
+            if isinstance(it, ast.Name) and it.id in tables:
+                it = tables[it.id]
+            names = [lp.target.id] if isinstance(lp.target, ast.Name) else \
+                [t.id for t in lp.target.elts] if isinstance(lp.target, ast.Tuple) and all(isinstance(t, ast.Name) for t in lp.target.elts) else None
+
+            def simple(x):
+                while isinstance(x, ast.Attribute):
+                    x = x.value
+                return isinstance(x, (ast.Constant, ast.Name))
+
+            rows = None
+            if names and isinstance(it, (ast.Tuple, ast.List)) and it.elts and not lp.orelse:
+                if isinstance(lp.target, ast.Name):
+                    rows = [[x] for x in it.elts]
+                elif all(isinstance(x, (ast.Tuple, ast.List)) and len(x.elts) == len(names) for x in it.elts):
+                    rows = [list(x.elts) for x in it.elts]
+            if rows and all(simple(x) for r in rows for x in r) \
+                    and any(isinstance(x, ast.Constant) and isinstance(x.value, str) and x.value.isidentifier() for r in rows for x in r) \
+                    and not any(isinstance(n, (ast.Break, ast.Continue)) for b in lp.body for n in ast.walk(b)) \
+                    and not any(isinstance(n, ast.Name) and isinstance(n.ctx, ast.Store) and n.id in names for b in lp.body for n in ast.walk(b)):
                 out = []
-                for x in it.elts:
+                for r in rows:
                     for b in lp.body:
-                        nb = _Subst({lp.target.id: x}).visit(copy.deepcopy(b))
+                        nb = _Subst(dict(zip(names, r))).visit(copy.deepcopy(b))
                         nb = _Attr().visit(nb)
-                        out.append(self.visit(nb))
+                        res = self.visit(nb)
+                        out.extend(res if isinstance(res, list) else [res])
                 return out
             return self.generic_visit(lp)
 
